@@ -12,7 +12,7 @@ from . import solver
 from .lin import show_formula, show_pc
 
 VERIF = factsmod.VERIF
-EVIDENCE_DIR = os.path.join(VERIF, "evidence")
+EVIDENCE_DIR = os.environ.get("RTCP_EVIDENCE_DIR") or os.path.join(VERIF, "evidence")
 KNOWN_FILE = os.path.join(VERIF, "known_findings.json")
 
 _LABEL = re.compile(r"@L[A-Za-z0-9_./]*:\d+:\d+")
